@@ -474,6 +474,33 @@ pub fn adv_catalogue(extpk: &schema::PublicKey) -> Vec<AdvBlock> {
             vec![],
         ));
         add("rule-head-var-only-in-expr", b);
+        // dates over the whole u64 range as the time crate sees them (`as i64`): years below 0,
+        // the lowest year it accepts (-9999), the first it refuses, i64::MIN, and the same
+        // boundaries at the top (added after the seeded change C09-2, which unwrapped the
+        // RFC 3339 formatter: it refuses years outside 0..=9999 that from_unix_timestamp accepts)
+        let mut b = block(v6, &["f"]);
+        let dates: Vec<u64> = vec![
+            (-62167219200i64) as u64,
+            (-62167219201i64) as u64,
+            (-100000000000i64) as u64,
+            (-377705116800i64) as u64,
+            (-377705116801i64) as u64,
+            i64::MIN as u64,
+            i64::MAX as u64,
+            253402300799,
+            253402300800,
+            1 << 62,
+            u64::MAX - 1,
+        ];
+        for d in &dates {
+            b.facts_v2.push(fact(1024, vec![t_date(*d)]));
+        }
+        // a check that fails and mentions them (the error text prints the check)
+        b.checks_v2.push(check(
+            vec![query(vec![pred(1024, vec![t_var(1)])], vec![vec![o_val(t_var(1)), o_val(t_date(dates[2])), o_bin(0, None)], vec![o_val(t_bool(false))]], vec![])],
+            None,
+        ));
+        add("dates-whole-u64-range", b);
         // a head variable the body does not bind, with a fact that matches the body: token
         // blocks are refused at load (validate_variables), snapshots and builder values are not
         // (added after the seeded change C09-4)
